@@ -3,7 +3,10 @@ use aws_lc_rs::constant_time;
 use aws_lc_rs::hkdf::{self, HKDF_SHA384, KeyType};
 use aws_lc_rs::hmac::{self, HMAC_SHA384};
 use aws_lc_rs::iv::FixedLength;
+#[cfg(not(paseto_verif))]
 use aws_lc_rs::rand::{SecureRandom, SystemRandom};
+#[cfg(paseto_verif)]
+use crate::verif::{SecureRandom, SystemRandom};
 use paseto_core::PasetoError;
 use paseto_core::key::HasKey;
 use paseto_core::pae::{WriteBytes, pre_auth_encode};
